@@ -377,7 +377,9 @@ class Fit(Contract):
             sc0, sf0 = z3.Bool("saved_config0"), z3.Bool("saved_flow0")
             I.path.assume(z3.Implies(sf0, z3.BoolVal(bool(shape["file_flow"]))))
             I.path.assume(z3.Implies(sc0, z3.BoolVal(bool(shape["file_config"]))))
-            a.f["_checkpoint_defaults"] = PyDict({"path": path, "every": IV(1), "save_config": B(True), "save_flow": B(True), "saved_config": B(sc0), "saved_flow": B(sf0)})
+            # the flags an enclosing auto_checkpoint(...) / resume_from_file(...) may have set: any combination (resume_from_file installs save_flow=False)
+            a.f["_checkpoint_defaults"] = PyDict({"path": path, "every": IV(1), "save_config": B(z3.Bool("defaults_save_config")), "save_flow": B(z3.Bool("defaults_save_flow")),
+                                                  "saved_config": B(sc0), "saved_flow": B(sf0)})
             a.absent.discard("_checkpoint_defaults")
             kw["overwrite"] = B(bool(shape["overwrite"]))
         if shape["ck"] != "none":
